@@ -57,6 +57,7 @@ type Exec struct {
 	intUFApps map[string][]*intUFApp
 	jsonVals []jsonVal
 	jsonTop  bool
+	bigBytesMemo []bigBytesRec
 }
 
 type ufApp struct {
